@@ -208,9 +208,17 @@ impl<'a, T: ColumnProvider> ExpressionExecutionEngine<'a, T> {
             ExpressionTree::In { is_not, operand, values } => {
                 let executed_operand = self.evaluate(operand)?;
 
+                // x IN (v1, v2) is x = v1 OR x = v2 and x NOT IN (v1, v2) is x != v1 AND x != v2,
+                // using the comparison of the = operator (which is never true for NULL operands).
+                let compare_operator = if *is_not { CompareOperator::NotEqual } else { CompareOperator::Equal };
                 for value in values {
-                    let expected_value = self.evaluate(value)?;
-                    if executed_operand == expected_value {
+                    let comparison = ExpressionTree::Compare {
+                        operator: compare_operator.clone(),
+                        left: Box::new(ExpressionTree::Value(executed_operand.clone())),
+                        right: Box::new(ExpressionTree::Value(self.evaluate(value)?))
+                    };
+
+                    if self.evaluate(&comparison)?.bool() != *is_not {
                         return Ok(Value::Bool(!is_not));
                     }
                 }
